@@ -326,7 +326,8 @@ def run_unit(unit, case, tier="quick"):
                 extra_as = [z3.BoolVal(False) if isinstance(x, bool) else x for x in extra_as]
                 ob.add(solve.prove(assum + extra_as, gz, gopts.get("timeout", timeout),
                                     dict(_opts(gopts.get("solver_opts", unit.solver_opts), ctx), rewrites=gopts.get("rewrites"),
-                                         ring_only=gopts.get("ring_only", False), try_eval=gopts.get("try_eval", False))), ptag)
+                                         ring_only=gopts.get("ring_only", False), try_eval=gopts.get("try_eval", False),
+                                         **{k: gopts[k] for k in ("abstract_nl", "abstract_only") if k in gopts})), ptag)
         # cover: at least one returning path is feasible
         cover = ObResult(f"{uname}:cover")
         ncov = 0
@@ -349,7 +350,7 @@ def run_unit(unit, case, tier="quick"):
             if key in seen:
                 continue
             seen.add(key)
-            v = solve.prove(assum, so.cond, timeout, _opts(unit.solver_opts, ctx))
+            v = solve.prove(assum, so.cond, timeout, _opts(dict(unit.solver_opts or {}, **(getattr(so, "opts", None) or {})), ctx))
             v.reason = (v.reason + f" {so.kind} at {so.where}").strip()
             cn = getattr(so, "clause", None)
             if cn:      # a side obligation that belongs to a named clause of the contract (written loop summaries)
